@@ -379,6 +379,9 @@ def apalache_laws(rep, wd: Path, module: str, part: str, domain: str, laws: str 
         res[inv] = {"outcome": outcome, "wall_s": round(time.time() - t0, 1)}
         if inv == laws and outcome == "Error":
             rep.violation(f"Apalache: a law of {module} does not hold over {domain}", {"apalache_out": out[-4000:]})
+        elif outcome == "?":
+            rep.parts[part] = {"module": module, "skipped": f"apalache-mc gave no verdict for {inv}"}
+            return
         elif outcome != want:
             rep.machinery(f"apalache-mc on {module} ({inv}): expected {want}, got {outcome}: {out[-600:]}")
     rep.parts[part] = {"module": module, "domain": domain, "length": 0, **res}
